@@ -25,6 +25,26 @@ type c19Case struct {
 	Limit    int    `json:"limit"`          // producer batch limit (0 = none)
 	Compress bool   `json:"compress"`       // client asks for zstd
 	Thresh   int64  `json:"threshold,omitempty"`
+	// LastWithFinish: the producer's last data batch shares its Produce call
+	// with Finish() instead of being followed by a Finish-only call.
+	LastWithFinish bool `json:"last_with_finish,omitempty"`
+}
+
+// c19AimLastAtCap re-sizes the last batch so that the sizes the last response
+// accumulates end near the cap (as the unary and exchange sizes are drawn
+// around it): est(i) is the generator's estimate of what batch i adds.
+func c19AimLastAtCap(t *rapid.T, c *c19Case, est func(pad int) int, maxPad int) {
+	n := len(c.Pads)
+	first := 0
+	if c.Limit > 0 {
+		first = (n - 1) / c.Limit * c.Limit
+	}
+	sum := 0
+	for i := first; i < n-1; i++ {
+		sum += est(c.Pads[i])
+	}
+	pad := int(c.Cap) - sum - 24 + rapid.IntRange(-120, 300).Draw(t, "lastdelta")
+	c.Pads[n-1] = min(max(pad, 0), maxPad)
 }
 
 func genC19(t *rapid.T) c19Case {
@@ -43,6 +63,7 @@ func genC19(t *rapid.T) c19Case {
 			c.Rows = append(c.Rows, rapid.IntRange(1, 3).Draw(t, "rows"))
 		}
 		c.Limit = []int{0, 0, 1, 3, 7}[rapid.IntRange(0, 4).Draw(t, "limit")]
+		c.LastWithFinish = rapid.IntRange(0, 2).Draw(t, "lastfinish") == 0
 	case "ext_unary", "ext_exchange":
 		c.Thresh = int64(rapid.IntRange(64, 800).Draw(t, "thresh"))
 		c.Cap = int64(rapid.IntRange(200, 3000).Draw(t, "cap"))
@@ -56,6 +77,16 @@ func genC19(t *rapid.T) c19Case {
 			c.Rows = append(c.Rows, 1)
 		}
 		c.Limit = []int{0, 0, 2, 5}[rapid.IntRange(0, 3).Draw(t, "limit")]
+		c.LastWithFinish = rapid.IntRange(0, 2).Draw(t, "lastfinish") == 0
+		if rapid.IntRange(0, 2).Draw(t, "aimlast") == 0 {
+			thresh := int(c.Thresh)
+			c19AimLastAtCap(t, &c, func(pad int) int {
+				if sz := pad + 24; sz >= thresh {
+					return sz
+				}
+				return 0 // stays inline
+			}, 4400)
+		}
 	}
 	return c
 }
@@ -194,6 +225,10 @@ func runC19(c c19Case) (out lib.Outcome) {
 			script.Turns = append(script.Turns, lib.TurnSpec{Act: "emit", Pad: c.Pads[i], Rows: c.Rows[i]})
 			total += int64(c.Pads[i] * c.Rows[i])
 		}
+		if c.LastWithFinish {
+			script.Turns[len(script.Turns)-1].Act = "emit_finish"
+			out.Label("last-batch-with-finish")
+		}
 		call := lib.CallSpec{Kind: "stream", Method: "s_prod", CancelAt: -1, Stream: script}
 		free := lib.RunHTTPStream(one(c19Server(c, false, nil)), call, nil, 400)
 		if free.Broken != "" {
@@ -329,6 +364,10 @@ func runC19(c c19Case) (out lib.Outcome) {
 			sizes = append(sizes, sz)
 			total += sz
 		}
+		if c.LastWithFinish {
+			script.Turns[len(script.Turns)-1].Act = "emit_finish"
+			out.Label("last-batch-with-finish")
+		}
 		out.NonTrivial = total > c.Cap
 		if out.NonTrivial {
 			out.Label("total>cap")
@@ -336,6 +375,17 @@ func runC19(c c19Case) (out lib.Outcome) {
 		call := lib.CallSpec{Kind: "stream", Method: "s_prod", CancelAt: -1, Stream: script}
 		t := lib.HTTPInit(h, "", call, hdr)
 		turn := 0 // index of the next producer turn
+		refused := false
+		defer func() {
+			switch {
+			case refused:
+				out.Label("ext-producer-refused")
+			case turn == len(sizes) && c.LastWithFinish:
+				out.Label("ext-producer-complete-last-with-finish")
+			case turn == len(sizes):
+				out.Label("ext-producer-complete")
+			}
+		}()
 		for responses := 1; responses < 200; responses++ {
 			if t.Resp.Panic != "" || t.DecodeErr != nil || t.Resp.Decoded == nil {
 				out.Violate("C19/broken-response", "response %d broken", responses)
@@ -354,6 +404,8 @@ func runC19(c c19Case) (out lib.Outcome) {
 						turn++
 					case "data":
 						turn++
+					case "error":
+						refused = true
 					}
 				}
 			}
@@ -395,11 +447,12 @@ func diffItems(a, b []lib.ClientItem) string {
 
 var propC19 = lib.Prop[c19Case]{
 	ID: "C19",
-	Rule: "caps 400-6000 bytes; unary results and exchange emits sized within -700..+300 bytes of the cap; producers of 1-60 batches with 0-1200 bytes of padding and 1-3 rows each, batch limit 0/1/3/7, client compression on/off; externalisation with an in-memory recording storage, thresholds 64-800 bytes and max_externalized caps around single-batch and cumulative sizes. " +
+	Rule: "caps 400-6000 bytes; unary results and exchange emits sized within -700..+300 bytes of the cap; producers of 1-60 batches with 0-1200 bytes of padding and 1-3 rows each, batch limit 0/1/3/7, the last data batch followed by a Finish-only Produce call or (one case in three) sharing its Produce call with Finish(), client compression on/off; externalisation with an in-memory recording storage, thresholds 64-800 bytes and max_externalized caps around single-batch and cumulative sizes (one external producer in three has its last batch re-sized so that the last response's uploads end within -120..+300 bytes of the cap). " +
 		"Oracle: unary/exchange differential against the same call on an uncapped server (body over cap -> one EXCEPTION naming max_response_bytes, else identical body); producer: in every response the last data batch starts at an offset <= cap, and following cursors yields exactly the uncapped stream; external: over-cap upload refused naming max_externalized_response_bytes with zero uploads, per-response uploaded Arrow size <= cap. Non-trivial: producer total > 2x cap, or a size within a batch of the cap.",
 	Gen:          genC19,
 	Run:          runC19,
-	Essential:    []string{"mode:unary", "mode:exchange", "mode:producer", "mode:ext_unary", "mode:ext_exchange", "mode:ext_producer", "over-cap", "within-cap", "near-cap", "total>2cap", "multi-response"},
+	Essential:    []string{"mode:unary", "mode:exchange", "mode:producer", "mode:ext_unary", "mode:ext_exchange", "mode:ext_producer", "over-cap", "within-cap", "near-cap", "total>2cap", "multi-response",
+		"last-batch-with-finish", "ext-producer-refused", "ext-producer-complete", "ext-producer-complete-last-with-finish"},
 	EssentialMin: 200,
 }
 
